@@ -206,7 +206,11 @@ Definition scan_thr (r : list N) : list N * list N :=
         if (length hx =? 6)%nat && forallb (isin d_hex) hx then (hx, skipn 6 r) else ([], r)
   end.
 
-(** the documented grammar as a left-to-right scanner (fields of a sentence) *)
+(** the fields of a specifier, by a left-to-right scanner (what the groups of
+    _FORMAT_SPEC capture: the expression parses unambiguously).  A dot followed by
+    neither v_align nor height still yields fields here; such strings are excluded at
+    the language level (_NO_VERTICAL_SPEC in the code, "at least one of v_align and
+    height" in the documentation). *)
 Definition parse (s : list N) : option fields :=
   let (ha, s1) := opt_char (isin d_halign) s in
   let (w, s2) := span (isin d_digit) s1 in
@@ -219,8 +223,6 @@ Definition parse (s : list N) : option fields :=
         else (false, None, [], s2)
     | [] => (false, None, [], [])
     end in
-  if dot && negb (is_some va) && is_nil h then None
-  else
     let '(hash, thr, s4) :=
       match s3 with
       | x :: r => if (x =? 35)%N then let (t, r') := scan_thr r in (true, t, r')
@@ -427,47 +429,56 @@ Record meaning := {
     to the absolute dimension max(terminal_dimension + dimension, 1)" *)
 Definition pad (term v : Z) : Z := if (0 <? v)%Z then v else Z.max (term + v)%Z 1%Z.
 
+Definition doc_h (f : fields) : halign :=
+  match f_halign f with
+  | Some 60%N => HLeft | Some 62%N => HRight | _ => HCenter   (* < left, | center, > right; default center *)
+  end.
+Definition doc_pw (ts : tsize) (f : fields) : Z :=
+  if is_nil (f_width f) then cols ts     (* default: terminal width *)
+  else pad (cols ts) (int_of (f_width f)).
+Definition doc_v (f : fields) : valign :=
+  match f_valign f with
+  | Some 94%N => VTop | Some 95%N => VBottom | _ => VMiddle   (* ^ top, - middle, _ bottom; default middle *)
+  end.
+Definition doc_ph (ts : tsize) (f : fields) : Z :=
+  if is_nil (f_height f) then (lines ts - 2)%Z     (* default: terminal height minus two *)
+  else pad (lines ts) (int_of (f_height f)).
+Definition doc_t (f : fields) : transparency :=
+  if f_hash f then
+    match f_thr f with
+    | [] => TDisabled                    (* # without threshold or bgcolor *)
+    | x :: r => if (x =? 46)%N then TThreshold r
+                else if (x =? 35)%N then TBgTerminal
+                else TBgColor (hex_of (x :: r))
+    end
+  else TDefault.
+
+Definition doc_method (sf : sfields) : option nat :=
+  match sf_method sf with
+  | Some 76%N => Some 1%nat | Some 87%N => Some 2%nat | Some 65%N => Some 3%nat   (* L W A *)
+  | _ => None
+  end.
+Definition doc_z (sf : sfields) : Z :=
+  match sf_z sf with
+  | Some (true, ds) => (- int_of ds)%Z
+  | Some (false, ds) => int_of ds
+  | None => 0%Z                          (* default z0 *)
+  end.
+Definition doc_mix (sf : sfields) : bool :=
+  match sf_mix sf with Some 49%N => true | _ => false end.     (* default m0 *)
+Definition doc_comp (sf : sfields) : Z :=
+  match sf_comp sf with Some c => digit_val c | None => 4%Z end.   (* default c4 *)
+(** "An integer in the signed 32-bit range (excluding -(2**31))" *)
+Definition z_in_range (z : Z) : bool := ((- two31 <? z) && (z <? two31))%Z.
+
 Definition doc_interp (ts : tsize) (sty : style) (f : fields) (sf : option sfields) : option meaning :=
-  let h := match f_halign f with
-           | Some 60%N => HLeft | Some 62%N => HRight | _ => HCenter   (* < left, | center, > right; default center *)
-           end in
-  let pw := match f_width f with
-            | [] => cols ts                       (* default: terminal width *)
-            | ds => pad (cols ts) (int_of ds)
-            end in
-  let v := match f_valign f with
-           | Some 94%N => VTop | Some 95%N => VBottom | _ => VMiddle   (* ^ top, - middle, _ bottom; default middle *)
-           end in
-  let ph := match f_height f with
-            | [] => (lines ts - 2)%Z              (* default: terminal height minus two *)
-            | ds => pad (lines ts) (int_of ds)
-            end in
-  let t := if f_hash f then
-             match f_thr f with
-             | [] => TDisabled                    (* # without threshold or bgcolor *)
-             | x :: r => if (x =? 46)%N then TThreshold r
-                         else if (x =? 35)%N then TBgTerminal
-                         else TBgColor (hex_of (x :: r))
-             end
-           else TDefault in
-  let mk me z mx cp := {| m_h := h; m_pw := pw; m_v := v; m_ph := ph; m_t := t;
-                          m_method := me; m_z := z; m_mix := mx; m_comp := cp |} in
+  let mk me z mx cp := {| m_h := doc_h f; m_pw := doc_pw ts f; m_v := doc_v f; m_ph := doc_ph ts f;
+                          m_t := doc_t f; m_method := me; m_z := z; m_mix := mx; m_comp := cp |} in
   match sf with
   | None => Some (mk None 0%Z false 4%Z)          (* defaults: z0, m0, c4 *)
   | Some sf =>
-      let me := match sf_method sf with
-                | Some 76%N => Some 1%nat | Some 87%N => Some 2%nat | Some 65%N => Some 3%nat   (* L W A *)
-                | _ => None
-                end in
-      let z := match sf_z sf with
-               | Some (true, ds) => (- int_of ds)%Z
-               | Some (false, ds) => int_of ds
-               | None => 0%Z
-               end in
-      let mx := match sf_mix sf with Some 49%N => true | _ => false end in
-      let cp := match sf_comp sf with Some c => digit_val c | None => 4%Z end in
-      (* "An integer in the signed 32-bit range (excluding -(2**31))" *)
-      if ((- two31 <? z) && (z <? two31))%Z then Some (mk me z mx cp) else None
+      if z_in_range (doc_z sf) then Some (mk (doc_method sf) (doc_z sf) (doc_mix sf) (doc_comp sf))
+      else None
   end.
 
 (** what an implementation result denotes: alignment as _format_render reads it
